@@ -217,12 +217,14 @@ func (r linkDestinationReplacer) scanInlineLinks(line []byte, lineStart int, src
 
 		if codeSpanLen > 0 {
 			if c == '`' {
+				// A backtick string of a different length is part of the
+				// content of the code span.
 				run := countRun(line, i, '`')
-				if run == codeSpanLen && (i+run >= len(line) || line[i+run] != '`') {
+				if run == codeSpanLen {
 					codeSpanLen = 0
-					i += run
-					continue
 				}
+				i += run
+				continue
 			}
 			i++
 			continue
